@@ -34,8 +34,11 @@ DIMS = ([(1, 1), (1, 2), (2, 1), (1, 5), (6, 1), (2, 2), (2, 3), (3, 2), (2, 6),
                         (7, 7), (7, 7), (7, 5), (4, 7)])
 
 
-def gen_machine(rng, dims=None):
-    w, h = dims or rng.choice(DIMS)
+DENSE_DIMS = [(4, 4), (5, 5), (6, 6), (4, 8), (8, 4), (7, 7), (8, 8), (6, 9), (8, 12), (12, 8), (5, 3), (3, 7)]
+
+
+def gen_machine(rng, dims=None, dense=False):
+    w, h = dims or rng.choice(DENSE_DIMS if dense else DIMS)
     chips = [(x, y) for x in range(w) for y in range(h)]
     topo = rng.choice(["torus", "torus", "mesh", "mesh", "partial"])
     dead_links = set()
@@ -45,7 +48,8 @@ def gen_machine(rng, dims=None):
         wl = wrap_links(w, h)
         p = rng.choice([0.05, 0.12, 0.5])
         dead_links |= set(l for l in wl if rng.random() < p)
-    fault = rng.choice(["none", "links", "links", "oneway", "chips", "cluster", "heavy", "mixed"])
+    fault = "dense" if dense else rng.choice(["none", "links", "links", "oneway", "chips", "cluster",
+                                              "heavy", "mixed"])
     dead_chips = set()
 
     def kill_link(x, y, l, both):
@@ -65,6 +69,17 @@ def gen_machine(rng, dims=None):
     if fault in ("chips", "mixed", "heavy") and len(chips) > 1:
         for _ in range(rng.randint(1, max(1, min(4, len(chips) // 4)))):
             dead_chips.add(rng.choice(chips))
+    if fault == "dense":
+        # 10-20 % of the directed links dead (half of them in both directions), 0-5 dead chips
+        p = rng.uniform(0.10, 0.20)
+        both = rng.random() < 0.5
+        for (x, y) in chips:
+            for l in range(6):
+                if rng.random() < (p / 1.5 if both else p):
+                    kill_link(x, y, l, both and rng.random() < 0.5)
+        for _ in range(rng.randint(0, 5)):
+            if len(chips) > 6:
+                dead_chips.add(rng.choice(chips))
     if fault == "cluster":
         cx, cy = rng.choice(chips)
         if rng.random() < 0.5 and len(chips) > 2:
@@ -106,8 +121,8 @@ def gen_stream(rng, n):
     return [rng.randrange(TWO53) for _ in range(n)], style
 
 
-def gen_case(rng, dims=None, malformed=False):
-    machine, topo, fault = gen_machine(rng, dims)
+def gen_case(rng, dims=None, malformed=False, dense=False):
+    machine, topo, fault = gen_machine(rng, dims, dense)
     w, h = machine["w"], machine["h"]
     dead = set(map(tuple, machine["dead_chips"]))
     live = [(x, y) for x in range(w) for y in range(h) if (x, y) not in dead]
@@ -135,7 +150,8 @@ def gen_case(rng, dims=None, malformed=False):
     for _ in range(nnets):
         src_chip = rng.choice(live)
         src = new_vertex(src_chip)
-        fan = rng.choice([0, 1, 1, 2, 2, 3, 4, 6, 10, 25, len(live), 2 * len(live)])
+        fan = (rng.randint(1, 12) if dense else
+               rng.choice([0, 1, 1, 2, 2, 3, 4, 6, 10, 25, len(live), 2 * len(live)]))
         sinks = []
         for _ in range(fan):
             k = rng.random()
@@ -156,7 +172,7 @@ def gen_case(rng, dims=None, malformed=False):
     if malformed and dead and nets[0]["sinks"]:
         kind = "sink-on-dead-chip"
         placements[nets[0]["sinks"][0]] = list(rng.choice(sorted(dead)))
-    radius = rng.choice([0, 1, 2, 20, 20])
+    radius = rng.choice([0, 1, 2, 3, 20, 20])
     ndest = sum(len(n["sinks"]) for n in nets)
     stream, sstyle = gen_stream(rng, 8 * ndest + 8)
     return dict(machine=machine, nets=nets, placements=sorted(placements.items()),
@@ -293,8 +309,27 @@ def oracle(c, out):
     for net, e in zip(c["nets"], out["nets"]):
         bad = oracle_tree(c, net, e["final"])
         if bad:
+            if bad[0] == "tree:chip-twice" and e.get("broken") is not None and not twice(e["ner"]):
+                # the tree was fine before avoid_dead_links: the duplicate was made by the repair
+                return ("repair-duplicate-child", bad[1] + " after the dead-link repair (broken links %r)"
+                        % (e["broken"],))
             return bad
     return None
+
+
+def twice(tree):
+    """does a chip occur twice among the nodes of the tree?"""
+    if tree[0] != "n":
+        return True
+    seen = set()
+    todo = [tree]
+    while todo:
+        t = todo.pop()
+        if (t[1], t[2]) in seen:
+            return True
+        seen.add((t[1], t[2]))
+        todo += [k for _, k in t[3] if k[0] == "n"]
+    return False
 
 
 def oracle_ner(c, out):
@@ -489,7 +524,7 @@ def run(chk, args):
     else:
         n_route = 1500 if chk.tier == "quick" else 40000
         n_ner = 500 if chk.tier == "quick" else 10000
-        cases = [gen_case(rng, malformed=(i % 25 == 24)) for i in range(n_route)]
+        cases = [gen_case(rng, malformed=(i % 25 == 24), dense=(i % 3 == 0)) for i in range(n_route)]
         # the hexagon-scan branch needs more than 3 * (1 + 3r(r+1)) route nodes: large fan-out
         for i in range(20 if chk.tier == "quick" else 300):
             c = gen_case(rng, dims=rng.choice([(8, 8), (9, 8), (10, 10)]))
